@@ -242,6 +242,10 @@ class AsyncManagementEnforcer(AsyncInternalEnforcer):
 
         if self.auto_build_role_links and rule_added:
             self.model.build_incremental_role_links(self.rm_map[ptype], PolicyOp.Policy_add, "g", ptype, rules)
+            if ptype in self.cond_rm_map:
+                self.model.build_incremental_conditional_role_links(
+                    self.cond_rm_map[ptype], PolicyOp.Policy_add, "g", ptype, rules
+                )
         return rule_added
 
     async def add_named_grouping_policies(self, ptype, rules):
